@@ -35,6 +35,8 @@ func run(opts verifmc.Options, param string) (*verifmc.Sched, *explore.Result) {
 			plan.Sticky = true
 		case "settle":
 			plan.Settle = true
+		case "closefault":
+			plan.CloseFaults = true
 		}
 	}
 	return crashcheck.RunFaulty("c14/"+param, sc, mode, plan, opts)
@@ -46,6 +48,8 @@ func run(opts verifmc.Options, param string) (*verifmc.Sched, *explore.Result) {
 func runConc(opts verifmc.Options, param string, sc crashcheck.Scenario) (*verifmc.Sched, *explore.Result) {
 	loud := 0
 	var injLog []string
+	sticky := strings.HasSuffix(param, "/sticky")
+	stickyOp, stickyLeft := "", 0 // a sticky fault: this call and the next one of the same kind fail
 	faults := func(op, kind string, id uint64) int {
 		n := 0
 		switch op {
@@ -56,10 +60,22 @@ func runConc(opts verifmc.Options, param string, sc crashcheck.Scenario) (*verif
 		default:
 			return 0
 		}
+		if stickyLeft > 0 && stickyOp == op {
+			stickyLeft--
+			injLog = append(injLog, fmt.Sprintf("sticky:%s%s#%d", op, kind, id))
+			return 1
+		}
+		if sticky {
+			n++
+		}
 		c := verifmc.Choose(n, "fault:"+op)
 		if c != 0 {
 			loud++
 			injLog = append(injLog, fmt.Sprintf("%s%s#%d:%d", op, kind, id, c))
+		}
+		if sticky && c == n-1 {
+			stickyOp, stickyLeft = op, 1
+			return 1
 		}
 		return c
 	}
@@ -101,7 +117,7 @@ func main() {
 		"a sticky fault clears once the asynchronous error callback fired twice",
 		"fault placements beyond the deviation bound are not explored",
 	}
-	names := []string{"safe3", "safe3/sticky", "merge4", "merge4/sticky", "merge4/settle", "merge-late/settle", "unsafe3upd-cf/conc", "unsafe2x1cb-cf/conc", "safe2x2/conc", "safe3keep2", "safe3/open", "merge4/open", "safe3keep2/open"}
+	names := []string{"safe3", "safe3/sticky", "merge4", "merge4/sticky", "merge4/settle", "merge-late/settle", "unsafe3upd-cf/conc", "unsafe3upd-cf/conc/sticky", "unsafe3cb/conc/sticky", "unsafe2x1cb-cf/conc", "safe2x2/conc", "safe3keep2", "safe3/open", "merge4/open", "safe3keep2/open"}
 	if c.Thorough() {
 		names = append(names, "unsafe4merge/conc", "unsafe3del-cf/conc", "safe2x1-cf/conc")
 	}
